@@ -57,7 +57,10 @@ StepVerdict(e, fValue, fSol, fRt) ==
   IF e.res = 0 THEN {"result_not_expression"} ELSE
   IF ~WFExpr(e.hb, e.work) THEN {"harness_source_not_wf"} ELSE
   LET wfo == WFExprFailing(e.ha, e.res)
-      srcSet == Reach(e.hb, e.src)
+      \* the tree the rewritten copy was cloned from: the harness's source tree, and - for the balanced move, which makes its own copy of
+      \* the tree it is handed and rewrites that - also the tree it was handed (every other rule rewrites the tree it is handed in place)
+      \* (a rule that hands back the very root object it was given works in place, and then that tree is the result, not a source)
+      srcSet == Reach(e.hb, e.src) \cup (IF e.rule = "move" /\ RootOf(e.ha, e.work) # e.res THEN Reach(e.hb, e.work) ELSE {})
       srcOK == SameArrays(e.hb, e.ha, srcSet)
       shareOK == Reach(e.ha, e.res) \cap srcSet = {}
       base == (IF srcOK THEN {} ELSE {"source_modified"}) \cup (IF shareOK THEN {} ELSE {"shares_nodes_with_source"})
